@@ -42,7 +42,7 @@ TREE_CAP = 60
 
 def units(tier):
     rng = random.Random(seed())
-    specs, n_exh = small_specs(tier, rng)
+    specs, n_exh = small_specs(tier, rng, chains_quick=60, chains_thorough=1500, fixed_quick=300, fixed_thorough=5000)
     maxtok = 4 if tier == "quick" else 5
     return [{"specs": [s.to_json() for s in ch], "maxtok": maxtok, "seed": seed() * 1000 + i}
             for i, ch in enumerate(chunks(specs, 48))]
